@@ -46,6 +46,10 @@ struct Args {
     from: u64,
     to: u64,
     no_evidence: bool,
+    offset: u64,
+    stride: u64,
+    stop_file: Option<String>,
+    in_process: bool,
 }
 
 fn parse_args() -> Result<Args, String> {
@@ -63,6 +67,10 @@ fn parse_args() -> Result<Args, String> {
         from: 0,
         to: 64,
         no_evidence: false,
+        offset: 0,
+        stride: 1,
+        stop_file: None,
+        in_process: std::env::var("LIQUID_SIM_IN_PROCESS").is_ok(),
     };
     let mut i = 3;
     while i < a.len() {
@@ -93,6 +101,19 @@ fn parse_args() -> Result<Args, String> {
                 i += 1;
             }
             "--no-evidence" => args.no_evidence = true,
+            "--in-process" => args.in_process = true,
+            "--offset" => {
+                args.offset = val(i)?.parse().map_err(|e| format!("--offset: {e}"))?;
+                i += 1;
+            }
+            "--stride" => {
+                args.stride = val(i)?.parse().map_err(|e| format!("--stride: {e}"))?;
+                i += 1;
+            }
+            "--stop-file" => {
+                args.stop_file = Some(val(i)?);
+                i += 1;
+            }
             other => return Err(format!("unknown option {other}")),
         }
         i += 1;
@@ -137,8 +158,18 @@ struct Agg {
     known_hits: BTreeMap<String, (String, u64)>,
 }
 
-fn run_batch(eng: &dyn Engine, seed: u64, quick: bool, from: u64, to: u64, workers: usize, known: &[KnownFinding], keep_digests: bool) -> Agg {
-    let next = AtomicU64::new(from);
+/// Index schedule of one batch: indices from + offset + n*stride below `to`.
+#[derive(Clone, Copy)]
+struct Span {
+    from: u64,
+    to: u64,
+    offset: u64,
+    stride: u64,
+}
+
+fn run_batch_inproc(eng: &dyn Engine, seed: u64, quick: bool, span: Span, workers: usize, known: &[KnownFinding], keep_digests: bool, stop_file: Option<&str>, emit: Option<&(dyn Fn(u64, &RunReport) + Sync)>) -> Agg {
+    let (from, to) = (span.from, span.to);
+    let next = AtomicU64::new(0);
     let min_fail = AtomicU64::new(u64::MAX);
     let agg = Mutex::new(Agg::default());
     // watchdog: a single run that does not finish within RUN_LIMIT is a harness problem (a generated
@@ -163,9 +194,20 @@ fn run_batch(eng: &dyn Engine, seed: u64, quick: bool, from: u64, to: u64, worke
                 sched::install_hooks();
                 let mut local = Agg::default();
                 loop {
-                    let i = next.fetch_add(1, Ordering::SeqCst);
+                    let n = next.fetch_add(1, Ordering::SeqCst);
+                    let i = from + span.offset + n * span.stride.max(1);
                     if i >= to || i > min_fail.load(Ordering::SeqCst) {
                         break;
+                    }
+                    if let Some(sf) = stop_file {
+                        // another process found a violation at a lower index: nothing above it matters
+                        if let Ok(txt) = std::fs::read_to_string(sf) {
+                            if let Ok(limit) = txt.trim().parse::<u64>() {
+                                if i > limit {
+                                    break;
+                                }
+                            }
+                        }
                     }
                     in_flight.lock().unwrap().insert(i, Instant::now());
                     let outcome = if eng.fresh_thread_per_run() {
@@ -189,6 +231,9 @@ fn run_batch(eng: &dyn Engine, seed: u64, quick: bool, from: u64, to: u64, worke
                         }
                     };
                     in_flight.lock().unwrap().remove(&i);
+                    if let Some(e) = emit {
+                        e(i, &rep);
+                    }
                     local.runs += 1;
                     local.evals += rep.evals;
                     local.logical_time += rep.logical_time;
@@ -241,6 +286,159 @@ fn run_batch(eng: &dyn Engine, seed: u64, quick: bool, from: u64, to: u64, worke
     a.samples.sort_by_key(|s| s.get("run").and_then(|r| r.as_u64()).unwrap_or(0));
     a.samples.truncate(4);
     a
+}
+
+/// One batch of runs. By default the runs are distributed over child PROCESSES (one simulated world
+/// at a time per process): process-wide state a change might introduce (a `static`, an allocator
+/// trick) can then not travel between simulations that merely share this harness's address space,
+/// and a crash of the library (abort, stack overflow) kills one child, not the verdict.
+fn run_batch(eng: &dyn Engine, seed: u64, quick: bool, from: u64, to: u64, workers: usize, known: &[KnownFinding], keep_digests: bool, in_process: bool) -> Agg {
+    let span = Span { from, to, offset: 0, stride: 1 };
+    if in_process {
+        return run_batch_inproc(eng, seed, quick, span, workers, known, keep_digests, None, None);
+    }
+    let exe = match std::env::current_exe() {
+        Ok(e) => e,
+        Err(e) => {
+            eprintln!("HARNESS-ERROR: cannot find own executable: {e}");
+            std::process::exit(2);
+        }
+    };
+    let w = workers.max(1) as u64;
+    let stop_file = std::env::temp_dir().join(format!("liquid-sim-stop-{}-{}", std::process::id(), from));
+    let _ = std::fs::remove_file(&stop_file);
+    let agg = Mutex::new(Agg::default());
+    let min_fail = AtomicU64::new(u64::MAX);
+    let failed_child: Mutex<Option<String>> = Mutex::new(None);
+    std::thread::scope(|sc| {
+        for k in 0..w {
+            let exe = exe.clone();
+            let stop_file = stop_file.clone();
+            let agg = &agg;
+            let min_fail = &min_fail;
+            let failed_child = &failed_child;
+            sc.spawn(move || {
+                use std::io::BufRead;
+                let mut child = match std::process::Command::new(&exe)
+                    .arg("chunk")
+                    .arg(eng.id())
+                    .args(["--seed", &seed.to_string(), "--tier", if quick { "quick" } else { "thorough" }])
+                    .args(["--from", &from.to_string(), "--to", &to.to_string()])
+                    .args(["--offset", &k.to_string(), "--stride", &w.to_string()])
+                    .args(["--stop-file", &stop_file.to_string_lossy()])
+                    .stdout(std::process::Stdio::piped())
+                    .stderr(std::process::Stdio::piped())
+                    .spawn()
+                {
+                    Ok(c) => c,
+                    Err(e) => {
+                        *failed_child.lock().unwrap() = Some(format!("cannot start child {k}: {e}"));
+                        return;
+                    }
+                };
+                let out = child.stdout.take().expect("piped stdout");
+                let mut local = Agg::default();
+                for line in std::io::BufReader::new(out).lines().map_while(Result::ok) {
+                    let Ok(j) = serde_json::from_str::<Json>(&line) else { continue };
+                    let Some(i) = j.get("i").and_then(|x| x.as_u64()) else { continue };
+                    local.runs += 1;
+                    local.evals += j["evals"].as_u64().unwrap_or(0);
+                    local.logical_time += j["lt"].as_u64().unwrap_or(0);
+                    if let Some(c) = j["counters"].as_object() {
+                        for (key, v) in c {
+                            *local.counters.entry(key.clone()).or_insert(0) += v.as_u64().unwrap_or(0);
+                        }
+                    }
+                    if let Some(d) = j["distinct"].as_array() {
+                        local.distinct.extend(d.iter().filter_map(|x| x.as_u64()));
+                    }
+                    if !j["sample"].is_null() && local.samples.len() < 4 {
+                        local.samples.push(json!({"run": i, "case": j["sample"].clone()}));
+                    }
+                    if keep_digests {
+                        local.digests.insert(i, j["digest"].as_u64().unwrap_or(0));
+                    }
+                    for v in j["violations"].as_array().cloned().unwrap_or_default() {
+                        let g = |k: &str| v.get(k).and_then(|x| x.as_str()).unwrap_or("").to_string();
+                        let viol = Violation { class: g("class"), signature: g("signature"), detail: g("detail"), scenario: v["scenario"].clone() };
+                        if let Some(kf) = matches_known(known, eng.id(), &viol) {
+                            let e = local.known_hits.entry(format!("{}|{}", kf.class, kf.signature)).or_insert((kf.what.clone(), 0));
+                            e.1 += 1;
+                        } else {
+                            let prev = min_fail.fetch_min(i, Ordering::SeqCst);
+                            if i < prev {
+                                let _ = std::fs::write(&stop_file, min_fail.load(Ordering::SeqCst).to_string());
+                            }
+                            local.violations.push((i, viol));
+                        }
+                    }
+                }
+                let mut err = String::new();
+                if let Some(mut e) = child.stderr.take() {
+                    use std::io::Read;
+                    let _ = e.read_to_string(&mut err);
+                }
+                match child.wait() {
+                    Ok(st) if st.success() => {}
+                    Ok(st) => {
+                        let tail: Vec<&str> = err.lines().filter(|l| !l.starts_with("WARNING conda")).rev().take(6).collect();
+                        *failed_child.lock().unwrap() = Some(format!("child {k} of {} ended with {st}: {}", eng.id(), tail.into_iter().rev().collect::<Vec<_>>().join(" | ")));
+                    }
+                    Err(e) => *failed_child.lock().unwrap() = Some(format!("child {k}: {e}")),
+                }
+                let mut g = agg.lock().unwrap();
+                g.runs += local.runs;
+                g.evals += local.evals;
+                g.logical_time += local.logical_time;
+                for (key, v) in local.counters {
+                    *g.counters.entry(key).or_insert(0) += v;
+                }
+                g.distinct.extend(local.distinct);
+                g.samples.extend(local.samples);
+                g.digests.extend(local.digests);
+                g.violations.extend(local.violations);
+                for (key, (what, n)) in local.known_hits {
+                    let e = g.known_hits.entry(key).or_insert((what, 0));
+                    e.1 += n;
+                }
+            });
+        }
+    });
+    let _ = std::fs::remove_file(&stop_file);
+    let mut a = agg.into_inner().unwrap();
+    a.violations.sort_by_key(|(i, _)| *i);
+    // runs above the lowest failing index are not part of the verdict (children stop there too)
+    if let Some(fc) = failed_child.into_inner().unwrap() {
+        if a.violations.is_empty() {
+            eprintln!("HARNESS-ERROR: {fc}");
+            std::process::exit(2);
+        }
+    }
+    a.samples.sort_by_key(|s| s.get("run").and_then(|r| r.as_u64()).unwrap_or(0));
+    a.samples.truncate(4);
+    a
+}
+
+/// Child side of `run_batch`: run a strided slice of the index space in this process, one run at a
+/// time, printing one JSON line per run.
+fn cmd_chunk(args: &Args) -> i32 {
+    let Some(eng) = engine_for(&args.target) else {
+        eprintln!("HARNESS-ERROR: no engine for {}", args.target);
+        return 2;
+    };
+    let known = load_known().unwrap_or_default();
+    let span = Span { from: args.from, to: args.to, offset: args.offset, stride: args.stride.max(1) };
+    let out = Mutex::new(std::io::stdout());
+    let emit = |i: u64, rep: &RunReport| {
+        use std::io::Write;
+        let viols: Vec<Json> = rep.violations.iter().map(|v| json!({"class": v.class, "signature": v.signature, "detail": v.detail, "scenario": v.scenario})).collect();
+        let line = json!({"i": i, "evals": rep.evals, "lt": rep.logical_time, "counters": rep.counters, "distinct": rep.distinct, "digest": rep.digest, "sample": rep.sample, "violations": viols});
+        let mut o = out.lock().unwrap();
+        let _ = writeln!(o, "{line}");
+        let _ = o.flush();
+    };
+    let _ = run_batch_inproc(eng.as_ref(), args.seed, args.tier_quick, span, 1, &known, false, args.stop_file.as_deref(), Some(&emit));
+    0
 }
 
 fn write_evidence(eng: &dyn Engine, quick: bool, seed: u64, agg: &Agg, wall: f64, violations: u64, notes: Vec<String>) -> Result<(), String> {
@@ -306,7 +504,7 @@ fn cmd_check(args: &Args) -> i32 {
     let runs = args.runs.unwrap_or_else(|| eng.runs(quick));
     println!("liquid-sim check {} tier={} VERIF_SEED={} runs={} workers={}", eng.id(), if quick { "quick" } else { "thorough" }, args.seed, runs, args.workers);
     let t0 = Instant::now();
-    let agg = run_batch(eng.as_ref(), args.seed, quick, 0, runs, args.workers, &known, true);
+    let agg = run_batch(eng.as_ref(), args.seed, quick, 0, runs, args.workers, &known, true, args.in_process);
     // determinism self-check: re-execute the first runs on one worker and compare digests
     let mut notes = vec![format!(
         "std::sync interposition in this build: {}",
@@ -314,7 +512,7 @@ fn cmd_check(args: &Args) -> i32 {
     )];
     if agg.violations.is_empty() {
         let n = 32.min(runs);
-        let again = run_batch(eng.as_ref(), args.seed, quick, 0, n, 1, &known, true);
+        let again = run_batch(eng.as_ref(), args.seed, quick, 0, n, 1, &known, true, args.in_process);
         for (i, d) in &again.digests {
             if agg.digests.get(i) != Some(d) {
                 eprintln!("HARNESS-ERROR: run {i} of {} is not deterministic (digest {:x} vs {:x})", eng.id(), d, agg.digests.get(i).copied().unwrap_or(0));
@@ -324,7 +522,7 @@ fn cmd_check(args: &Args) -> i32 {
         notes.push(format!("determinism self-check: first {n} runs re-executed on 1 worker, digests identical"));
     }
     let wall = t0.elapsed().as_secs_f64();
-    if agg.counters.get("replay_probe.MISMATCH").copied().unwrap_or(0) > 0 {
+    if agg.violations.is_empty() && agg.counters.get("replay_probe.MISMATCH").copied().unwrap_or(0) > 0 {
         eprintln!("HARNESS-ERROR: a recorded schedule did not replay to the identical event log ({} of {} probes)", agg.counters["replay_probe.MISMATCH"], agg.counters.get("replay_probe.executions").copied().unwrap_or(0));
         return 2;
     }
@@ -463,7 +661,7 @@ fn cmd_digest(args: &Args) -> i32 {
         eprintln!("HARNESS-ERROR: no engine for {}", args.target);
         return 2;
     };
-    let agg = run_batch(eng.as_ref(), args.seed, args.tier_quick, args.from, args.to, args.workers, &[], true);
+    let agg = run_batch(eng.as_ref(), args.seed, args.tier_quick, args.from, args.to, args.workers, &[], true, args.in_process);
     for (i, d) in &agg.digests {
         println!("{i} {d:016x}");
     }
@@ -486,6 +684,7 @@ fn main() {
         "check" => cmd_check(&args),
         "replay" => cmd_replay(&args),
         "digest" => cmd_digest(&args),
+        "chunk" => cmd_chunk(&args),
         "dbg-parse" => engines::dbg_parse(args.seed, args.to),
         "dbg-world" => engines::dbg_world(args.seed, args.from),
         "dbg-c20" => engines::dbg_c20(args.seed, args.from),
